@@ -80,10 +80,12 @@ def run_unit(u, tier, workdir, prop):
                "obligations": [{"name": f"{u['name']}/witness-search", "backend": "cargo test (executable postcondition on the real code)", "ok": ok, "us": 0,
                                 "bounded": u.get("witness_bound", f"{w['cases']} cases"), "kind": "bounded"}],
                "failures": [], "functions_under_contract": u.get("functions", []), "canary": {"cases": w["cases"]}, "assumption_scan": {}, "items": [u["witness_target"]]}
-        if not ok:
-            f0 = w["fails"][0]
+        for f0 in w["fails"][:60]:
             res["failures"].append({"obligation": f"{u['name']}/{f0.get('fn', '?')}", "clause": f0.get("clause", ""), "msg": "bounded search on the real code found a failing input",
-                                    "raw": json.dumps(w["fails"][:5]), "unit": u["name"], "fn": f0.get("fn"), "input": {"failing_inputs": w["fails"][:5], "cases_tried": w["cases"]}})
+                                    "raw": json.dumps(f0), "unit": u["name"], "fn": f0.get("fn"), "input": {"failing_inputs": [f0], "cases_tried": w["cases"]}})
+        if len(w["fails"]) > 60:
+            res["failures"].append({"obligation": f"{u['name']}/witness-search", "clause": "more failing inputs than the reporting cap", "msg": f"{len(w['fails'])} failing inputs",
+                                    "raw": "", "unit": u["name"], "fn": None, "input": {"failing_inputs": w["fails"][60:65], "cases_tried": w["cases"]}})
         return res
     raise R.Infra(f"unknown backend {u['backend']}")
 
@@ -102,10 +104,19 @@ def decide(prop, tier, seed):
     with cf.ThreadPoolExecutor(max_workers=6) as ex:
         futs = {ex.submit(run_unit, u, tier, workdir, prop): u for u in verus_units}
         kfut = ex.submit(K.decide_kani_units, kani_units, tier, workdir, prop) if kani_units else None
+        # an undecided unit (tool limit, lost anchor, construct the verifier rejects and no failing input found) does not stop the
+        # other units: a violation found elsewhere is still reported (exit 1); only "nothing violated, something undecided" is exit 2
+        undecided = []
         for f in futs:
-            results.append(f.result())
+            try:
+                results.append(f.result())
+            except R.Infra as e:
+                undecided.append(f"{futs[f]['name']}: {str(e)[:1500]}")
         if kfut:
-            results.extend(kfut.result())
+            try:
+                results.extend(kfut.result())
+            except R.Infra as e:
+                undecided.append("kani units: " + str(e)[:1500])
     known = load_known()
     violations, known_hits = [], []
     for r in results:
@@ -171,6 +182,7 @@ def decide(prop, tier, seed):
         "assumptions": trusted + ["machine floating point treated as exact real arithmetic on finite values (DESIGN §3.4)"] + not_decided,
         "wall_s": round(time.time() - t0, 2),
         "violations": len(violations),
+        "undecided_units": undecided,
     }
     os.makedirs(os.path.join(OUT, "evidence"), exist_ok=True)
     with open(os.path.join(OUT, "evidence", prop + ".json"), "w") as f:
@@ -201,7 +213,11 @@ def decide(prop, tier, seed):
             print(f"VIOLATION property={prop} replay={path}{tail}")
             print(f"  obligation {v['obligation']}: {v.get('msg','')} | {v.get('clause','')[:200]}")
     print(f"{prop} [{tier}] obligations={ev['coverage']['obligations']} discharged={ev['coverage']['discharged']} bounded={len(bounded)} "
-          f"known={len(known_hits)} violations={len(violations)} wall={ev['wall_s']}s")
+          f"known={len(known_hits)} violations={len(violations)} undecided_units={len(undecided)} wall={ev['wall_s']}s")
+    if undecided and rc == 0:
+        raise R.Infra("undecided (no violation found by the other units):\n" + "\n".join(undecided))
+    for u_ in undecided:
+        print("  UNDECIDED " + u_.split("\n")[0][:300])
     return rc
 
 
